@@ -178,6 +178,10 @@ type Exec struct {
 	cmdTag     []int
 	symNa      map[string]string // heap symbol -> allocation bound when it was created
 	curBlock   int
+	headSt     map[int]*State // top frame: state at each loop head (current iteration)
+	resultWant  map[string]bool         // result("<target>@k", i) mentioned by the contract
+	callResults map[string]capturedCall // ... and the values the matching call returned
+	callCount  map[string]string // calls("<target>") counters of the function under contract: target -> private component
 }
 
 func (x *Exec) fresh(base string) string {
@@ -921,6 +925,15 @@ func (x *Exec) execBody(fr *frame, st0 *State, reach0 string) ([]sval, *State, s
 			if fr.top && ct != nil && !ws.Top && x.topEnv != nil && !x.sweep {
 				x.loopFrame(ct, ws, st0, st, reach, false, "", "")
 			}
+			if fr.top {
+				// call counters: whatever the body calls, the count only grows
+				for _, comp := range x.callCount {
+					prev := st.get(comp)
+					nv := x.freshConst("calls_hv", "Int")
+					x.assume("", "(>= "+nv+" "+prev+")")
+					st.set(comp, nv)
+				}
+			}
 			for kk := 0; kk < k; kk++ {
 				phi := instrs[kk].(*ssa.Phi)
 				s := x.freshConst("phi_"+phi.Comment, x.so.sortOf(phi.Type()))
@@ -938,6 +951,12 @@ func (x *Exec) execBody(fr *frame, st0 *State, reach0 string) ([]sval, *State, s
 					}
 					x.assume(reach, t)
 				}
+			}
+			if fr.top {
+				if x.headSt == nil {
+					x.headSt = map[int]*State{}
+				}
+				x.headSt[ci.loopOrd[b]] = st.clone()
 			}
 		} else {
 			es := edges[b]
@@ -1331,6 +1350,15 @@ func (x *Exec) havocForWrites(st *State, ws *WriteSet, why string) *State {
 				continue // non-escaping locals cannot be written by anybody else
 			}
 			n.m[c] = x.freshConst(c+"_hv", x.so.comps[c])
+			if accs := x.eng.initOnlyFields()[c]; len(accs) > 0 && !x.errflow {
+				// init-only fields of objects that already exist survive unknown code
+				o := st.get(c)
+				var conj []string
+				for _, a := range accs {
+					conj = append(conj, "(= ("+a+" (select "+n.m[c]+" r!)) ("+a+" (select "+o+" r!)))")
+				}
+				x.assume("", "(forall ((r! Int)) (! (=> (and (< 0 r!) (< r! "+st.na+")) "+and(conj...)+") :pattern ((select "+n.m[c]+" r!))))")
+			}
 		}
 		n.tainted = true
 	} else {
